@@ -25,7 +25,7 @@ ASSUMPTIONS = [
     'blosc codec replaced by the zlib stand-in for blsc fixtures',
 ]
 EXHAUSTIVE_NOTE = {
-    'quick': 'every valid column name requested alone vs through fields="all" (and the default set where it contains it): box-cleaned (incl. main-progenitor columns), box-uncleaned and light-cone layouts, one fixed catalog each',
+    'quick': 'every compressed-ratio column with the column it is relative to listed before and after it; every valid column name requested alone vs through fields="all" (and the default set where it contains it): box-cleaned (incl. main-progenitor columns), box-uncleaned and light-cone layouts, one fixed catalog each',
     'thorough': 'same as quick on three fixed catalogs per layout, plus every ordered pair (target, last-listed column) for derived targets',
 }
 
@@ -80,6 +80,19 @@ def family(col):
     return 'plain'
 
 
+def _base_of(col):
+    """the column a compressed-ratio column is relative to (shares its raw input), or None"""
+    import re
+
+    m = re.fullmatch(r'(?:r\d{1,2}|rvcirc_max|sigmar)(_(?:L2)?com)', col)
+    if m:
+        return 'r100' + m.group(1)
+    m = re.fullmatch(r'sigmav(?:Min|Maj|Mid|rad|tan)(_(?:L2)?com)', col)
+    if m:
+        return 'sigmav3d' + m.group(1)
+    return None
+
+
 def config(tier):
     if tier == 'quick':
         return dict(shards=16, examples=10, numba_threads=1, soft_s=170, shrink_calls=30)
@@ -104,6 +117,17 @@ def exhaustive(tier, shard, nshards):
                 if k % nshards != shard:
                     continue
                 yield {'cat': _fixed_cat(layout, c), 'cleaned': cleaned, 'convert_units': True, 'target': col, 'others': [], 'pos': 0, 'modes': ['all', 'default'], 'sub': None}
+    for layout, cleaned in (('box', False), ('lc', True)):
+        cols = valid_columns(layout, cleaned)
+        for col in cols:
+            b = _base_of(col)
+            if b is None or b not in cols:
+                continue
+            for pos in (0, 1):
+                k += 1
+                if k % nshards != shard:
+                    continue
+                yield {'cat': _fixed_cat(layout, 1), 'cleaned': cleaned, 'convert_units': True, 'target': col, 'others': [b], 'pos': pos, 'modes': [], 'sub': None}
     if tier == 'thorough':
         for layout, cleaned in (('box', True), ('box', False), ('lc', True)):
             cols = valid_columns(layout, cleaned)
@@ -131,13 +155,14 @@ def _desc(draw, tier):
     others = draw(st.lists(st.sampled_from(cols), min_size=0, max_size=6, unique=True))
     others = [c for c in others if c != target]
     # biased tails: something of a different dtype/shape listed last; a dependency of the target
-    tail = draw(st.sampled_from(['none', 'uint', 'vec', 'dep', 'clean']))
+    tail = draw(st.sampled_from(['none', 'uint', 'vec', 'dep', 'clean', 'base']))
     pool = {
         'uint': [c for c in cols if family(c) in ('N', 'plain') and c in ('N', 'id', 'L0_N', 'ntaggedA', 'N_interp', 'index_halo', 'origin', 'L2_N')],
         'vec': [c for c in cols if c.startswith('x_') or c.startswith('v_') or c.startswith('SO') or 'eigenvecs' in c or c.startswith('sigmar') or c in ('pos_avg',)],
         'dep': [c for c in cols if c.startswith('sigmavM') or c.startswith('sigmav3d') or c.startswith('r100') or 'eigenvecs' in c or c in ('pos_avg', 'vel_avg', 'pos_interp', 'vel_interp')],
         'clean': [c for c in cols if c in names()['clean']],
         'none': [],
+        'base': [_base_of(target)] if _base_of(target) in cols else [],
     }[tail]
     pool = [c for c in pool if c != target]
     if pool:
